@@ -270,6 +270,7 @@ let payload_of (s : string) : payload =
   | "q" -> let (k, v) = split_once ':' rest in PPair (n_of_int (int_of_string k), mbytes v)
   | "Q" -> let (k, v) = split_once ':' rest in PPair (type_code types.(int_of_string k), mbytes v)
   | "s" -> PSection (mbytes rest)
+  | "S" -> let (_, v) = split_once ':' rest in PSection (mbytes v)   (* iterated n times first: the encoding does not depend on that *)
   | "y" -> PType types.(int_of_string rest)
   | k -> failwith ("bad payload kind " ^ k)
 
